@@ -254,6 +254,9 @@ def parse_iso8601(
 
             offset = ((int(off_hour) * 60) + int(off_minute)) * 60
 
+            if offset >= 24 * 60 * 60:
+                raise ParserError("Timezone offset is too large")
+
             if negative:
                 offset = -1 * offset
 
